@@ -154,6 +154,32 @@ def selection(ctx):
                     ctx.outcome("select", ("explicit" if fmt is not None else ("unique-match" if len(cands) == 1 else "one-of-several-matches")) if good else "WRONG")
                     if not good:
                         ctx.violation("select", "select:wrong-module:" + ("explicit" if fmt is not None else "by-name"), case, f"{case}: got {got}, acceptable {sorted(cands)}")
+    # history independence: an ambiguous name gets the same module whatever was guessed just before (each candidate primed in turn)
+    unamb, ambiguous = {}, []
+    for fn in names:
+        for op in OPS:
+            want, cands = refsel.decide(fn, op, None, reg)
+            if want != "error" and len(cands) == 1:
+                unamb.setdefault((next(iter(cands)), op), fn)
+            elif want != "error" and len(cands) > 1:
+                ambiguous.append((fn, op, sorted(cands)))
+    for fn, op, cands in ambiguous:
+        for prime in cands:
+            pname = unamb.get((prime, op))
+            if pname is None:
+                continue
+            ctx.count()
+            ctx.nontrivial(("primed", fn, op, prime))
+            try:
+                _select_format_module(pname, op, None)
+                got = _select_format_module(fn, op, None).__name__.rsplit(".", 1)[-1]
+            except Exception as exc:  # noqa: BLE001
+                got = f"{type(exc).__name__}"
+            ok = got == table.get(f"{fn}|{op}")
+            ctx.outcome("history", "independent" if ok else "DEPENDS-ON-HISTORY")
+            if not ok:
+                ctx.violation("deterministic", "select:depends-on-previous-call", {"filename": fn, "operation": op, "previous": pname},
+                              f"{fn} ({op}) selects {table.get(f'{fn}|{op}')} when asked first, {got} right after {pname} was selected")
     ctx.sample({"filename": "x.cp2k.out", "operation": "load_one", "fmt": None, "chosen": table.get("x.cp2k.out|load_one")})
     ctx.cov["file_names"] = len(names)
     # ---- the same through the public API, with recording stubs and a file-system audit
